@@ -1045,7 +1045,10 @@ def judge(w: World, scn: dict, st: dict):
         viol("C11.call_chain_deviates", {"expected": "peek", "got": None},
              f"{n_entries - n_peek} of {n_entries} final probe chains (entry file -> peek() of every imported module) "
              f"did not complete; error log: {errs[-3:]}", t_end)
+    # the instant a file's load *ended* (its imports were bound by then): a slow top level can span a reload
     load_iter = {x["kw"].get("tok"): x["iter"] for lst in loads.values() for x in lst}
+    for tok_, idx_ in load_done.items():
+        load_iter[tok_] = w.marks[idx_]["iter"]
     first_reload = min(reload_iters) if reload_iters else None
     for g, views in sorted(final_views.items()):
         if len(views) > 1:
